@@ -517,6 +517,8 @@ func reachingDefs(v ssa.Value, in *ssa.Function, d int) []ssa.Value {
 		return out
 	case *ssa.ChangeType:
 		return reachingDefs(x.X, in, d+1)
+	case *ssa.ChangeInterface:
+		return reachingDefs(x.X, in, d+1)
 	case *ssa.MakeInterface:
 		return reachingDefs(x.X, in, d+1)
 	}
